@@ -1,4 +1,5 @@
 import Toodee.Spec.Grid
+import Toodee.Proofs.InsertLemmas
 /-
   C06 — Inserting a row or column places it exactly and keeps the rest.
 
@@ -23,7 +24,39 @@ theorem C06_insert_row_ok (m : Mode) (cap : Nat) (t : TD α) (h : t.Inv) (i : Na
     o.t.data = t.data.take (i * t.numCols) ++ xs ++ t.data.drop (i * t.numCols) ∧
     o.t.numCols = xs.length ∧
     o.t.numRows = (if xs.length = 0 then 0 else t.numRows + 1) := by
-  sorry
+  intro o
+  have ho : o = _ := insertRow_honest m cap t h i xs spare hi hlen hcap hsp hword
+  have hsle : i * t.numCols ≤ t.data.length := by
+    rw [h.len, Nat.mul_comm t.numCols]
+    exact Nat.mul_le_mul_right _ hi
+  have hR0 : xs.length = 0 → t.numRows = 0 := by
+    intro h0
+    rcases hlen with h1 | h1
+    · exact h1
+    · exact h.zero.1 (by omega)
+  have hnr : (if xs.length > 0 then t.numRows + 1 else t.numRows) = (if xs.length = 0 then 0 else t.numRows + 1) := by
+    by_cases h0 : xs.length = 0
+    · simp [h0, hR0 h0]
+    · simp [h0, Nat.pos_of_ne_zero h0]
+  rw [ho]
+  refine ⟨rfl, rfl, rfl, ⟨?_, ?_, ?_⟩, rfl, rfl, hnr⟩
+  · show (_ ++ xs ++ _).length = xs.length * (if xs.length > 0 then t.numRows + 1 else t.numRows)
+    simp only [List.length_append, List.length_take, List.length_drop, Nat.min_eq_left hsle]
+    have hd := h.len
+    generalize i * t.numCols = s at hsle ⊢
+    by_cases h0 : xs.length = 0
+    · rw [hR0 h0, Nat.mul_zero] at hd
+      rw [h0, Nat.zero_mul]; omega
+    · rw [if_pos (Nat.pos_of_ne_zero h0), Nat.mul_add, Nat.mul_one]
+      rcases hlen with h1 | h1
+      · rw [h1, Nat.mul_zero] at hd ⊢; omega
+      · rw [h1]; omega
+  · show xs.length = 0 ↔ (if xs.length > 0 then t.numRows + 1 else t.numRows) = 0
+    rw [hnr]
+    by_cases h0 : xs.length = 0 <;> simp [h0]
+  · show (_ ++ xs ++ _).length < WORD
+    simp only [List.length_append, List.length_take, List.length_drop, Nat.min_eq_left hsle]
+    omega
 
 /-- the same result in rows-of-cells form: the new row sits at index `i`, the others keep their order -/
 theorem C06_insert_row_grid (m : Mode) (cap : Nat) (t : TD α) (h : t.Inv) (i : Nat) (xs spare : List α)
@@ -31,13 +64,39 @@ theorem C06_insert_row_grid (m : Mode) (cap : Nat) (t : TD α) (h : t.Inv) (i : 
     (hcap : t.data.length + xs.length ≤ cap) (hsp : xs.length ≤ spare.length)
     (hword : t.data.length + xs.length < WORD) :
     (t.insertRow m cap i (honest xs) spare).t.grid = t.grid.insertIdx i xs := by
-  sorry
+  rw [insertRow_honest m cap t h i xs spare hi (Or.inr hlen) hcap hsp hword]
+  show toRows xs.length (t.data.take (i * t.numCols) ++ xs ++ t.data.drop (i * t.numCols)) = _
+  have hg : ∀ r ∈ t.grid, r.length = xs.length := by rw [hlen]; exact t.grid_row_length
+  have hall : ∀ r ∈ t.grid.insertIdx i xs, r.length = xs.length := by
+    intro r hr
+    rw [insertIdx_eq_take_append_drop _ _ _ (by rw [h.grid_length]; exact hi)] at hr
+    simp only [List.mem_append, List.mem_cons] at hr
+    rcases hr with hr | rfl | hr
+    · exact hg r (List.mem_of_mem_take hr)
+    · rfl
+    · exact hg r (List.mem_of_mem_drop hr)
+  rw [← hlen, h.data_eq_flatten_grid,
+    ← flatten_insertIdx_uniform xs.length t.grid hg i xs (by rw [h.grid_length]; exact hi),
+    toRows_flatten xs.length hpos _ hall]
 
 theorem C06_insert_row_reject (m : Mode) (cap : Nat) (t : TD α) (i : Nat) (it : IterScript α) (spare : List α)
     (hbad : ¬ (i ≤ t.numRows ∧ (t.numRows = 0 ∨ it.claimed = t.numCols))) :
     let o := t.insertRow m cap i it spare
     o.res = .error .panic ∧ o.t = t ∧ o.rest = it.events ∧ o.leaked = [] := by
-  sorry
+  intro o
+  have ho : o = ⟨t, .error .panic, it.events, []⟩ := by
+    show t.insertRow m cap i it spare = _
+    unfold TD.insertRow
+    by_cases hi : i ≤ t.numRows
+    · have hl : (t.numRows == 0 || t.numCols == it.claimed) = false := by
+        by_cases h0 : t.numRows = 0
+        · exact absurd ⟨hi, Or.inl h0⟩ hbad
+        · have : ¬ t.numCols = it.claimed := fun hc => hbad ⟨hi, Or.inr hc.symm⟩
+          simp [h0, this]
+      simp only [hi, not_true_eq_false, if_false, hl, Bool.not_false, if_true, throw_eq]
+    · simp only [hi, not_false_eq_true, if_true, throw_eq]
+  rw [ho]
+  exact ⟨rfl, rfl, rfl, rfl⟩
 
 theorem C06_insert_col_ok (m : Mode) (cap : Nat) (t : TD α) (h : t.Inv) (i : Nat) (xs spare : List α)
     (hi : i ≤ t.numCols) (hlen : t.numCols = 0 ∨ xs.length = t.numRows)
@@ -48,7 +107,56 @@ theorem C06_insert_col_ok (m : Mode) (cap : Nat) (t : TD α) (h : t.Inv) (i : Na
     o.t.data = (if t.numCols = 0 then xs else (List.zipWith (insAt i) t.grid xs).flatten) ∧
     o.t.numRows = xs.length ∧
     o.t.numCols = (if xs.length = 0 then 0 else t.numCols + 1) := by
-  sorry
+  intro o
+  have hd := h.len
+  -- the rows the buffer is made of (an array without columns: one empty row per item)
+  obtain ⟨rows, hrows, hdata, hrl, hflat⟩ : ∃ rows : List (List α), (∀ r ∈ rows, r.length = t.numCols) ∧
+      t.data = rows.flatten ∧ xs.length = rows.length ∧
+      (List.zipWith (insAt i) rows xs).flatten
+        = (if t.numCols = 0 then xs else (List.zipWith (insAt i) t.grid xs).flatten) := by
+    by_cases hc : t.numCols = 0
+    · refine ⟨List.replicate xs.length [], ?_, ?_, by simp, ?_⟩
+      · intro r hr
+        rw [List.eq_of_mem_replicate hr, hc]; rfl
+      · rw [List.flatten_replicate_nil]
+        apply List.eq_nil_of_length_eq_zero
+        rw [hd, hc, Nat.zero_mul]
+      · have hi0 : i = 0 := by omega
+        rw [if_pos hc, hi0]
+        exact zipWith_insAt_replicate_nil xs
+    · have hx : xs.length = t.numRows := by
+        rcases hlen with h1 | h1
+        · exact absurd h1 hc
+        · exact h1
+      exact ⟨t.grid, t.grid_row_length, h.data_eq_flatten_grid, by rw [h.grid_length, hx], by rw [if_neg hc]⟩
+  have ho : o = _ := insertCol_honest m cap t i xs spare rows hrows hdata hrl hi hlen hcap hsp hword
+  have hlenf := zipWith_insAt_flatten_length t.numCols i hi rows xs hrows hrl
+  rw [← hdata] at hlenf
+  rw [hflat] at ho hlenf
+  have hprod : t.numCols * xs.length = t.data.length := by
+    rw [hd]
+    rcases hlen with h1 | h1
+    · simp [h1]
+    · rw [h1]
+  rw [ho]
+  generalize (if t.numCols = 0 then xs else (List.zipWith (insAt i) t.grid xs).flatten) = flat at hlenf ⊢
+  by_cases h0 : xs.length = 0
+  · have hn : ¬ xs.length > 0 := by omega
+    rw [if_neg hn]
+    rw [h0, Nat.mul_zero] at hprod
+    refine ⟨rfl, rfl, rfl, ⟨?_, Iff.rfl, ?_⟩, rfl, h0.symm, by rw [if_pos h0]⟩
+    · show flat.length = 0 * 0
+      omega
+    · show flat.length < WORD
+      omega
+  · rw [if_pos (Nat.pos_of_ne_zero h0)]
+    refine ⟨rfl, rfl, rfl, ⟨?_, ?_, ?_⟩, rfl, rfl, by rw [if_neg h0]⟩
+    · show flat.length = (t.numCols + 1) * xs.length
+      rw [Nat.add_mul]; omega
+    · show t.numCols + 1 = 0 ↔ xs.length = 0
+      omega
+    · show flat.length < WORD
+      omega
 
 /-- rows-of-cells form: every row gets its new cell at column `i` -/
 theorem C06_insert_col_grid (m : Mode) (cap : Nat) (t : TD α) (h : t.Inv) (i : Nat) (xs spare : List α)
@@ -56,13 +164,32 @@ theorem C06_insert_col_grid (m : Mode) (cap : Nat) (t : TD α) (h : t.Inv) (i : 
     (hcap : t.data.length + xs.length ≤ cap) (hsp : xs.length ≤ spare.length)
     (hword : t.data.length + xs.length < WORD) :
     (t.insertCol m cap i (honest xs) spare).t.grid = List.zipWith (insAt i) t.grid xs := by
-  sorry
+  have hR : 0 < xs.length := by
+    have := h.zero
+    omega
+  rw [insertCol_honest m cap t i xs spare t.grid t.grid_row_length h.data_eq_flatten_grid
+    (by rw [h.grid_length, hlen]) hi (Or.inr hlen) hcap hsp hword, if_pos hR]
+  show toRows (t.numCols + 1) (List.zipWith (insAt i) t.grid xs).flatten = _
+  exact toRows_flatten _ (by omega) _ (zipWith_insAt_row_length t.numCols i hi t.grid xs t.grid_row_length)
 
 theorem C06_insert_col_reject (m : Mode) (cap : Nat) (t : TD α) (i : Nat) (it : IterScript α) (spare : List α)
     (hbad : ¬ (i ≤ t.numCols ∧ (t.numCols = 0 ∨ it.claimed = t.numRows))) :
     let o := t.insertCol m cap i it spare
     o.res = .error .panic ∧ o.t = t ∧ o.rest = it.events ∧ o.leaked = [] := by
-  sorry
+  intro o
+  have ho : o = ⟨t, .error .panic, it.events, []⟩ := by
+    show t.insertCol m cap i it spare = _
+    unfold TD.insertCol
+    by_cases hi : i ≤ t.numCols
+    · have hl : (t.numCols == 0 || t.numRows == it.claimed) = false := by
+        by_cases h0 : t.numCols = 0
+        · exact absurd ⟨hi, Or.inl h0⟩ hbad
+        · have : ¬ t.numRows = it.claimed := fun hc => hbad ⟨hi, Or.inr hc.symm⟩
+          simp [h0, this]
+      simp only [hi, not_true_eq_false, if_false, hl, Bool.not_false, if_true, throw_eq]
+    · simp only [hi, not_false_eq_true, if_true, throw_eq]
+  rw [ho]
+  exact ⟨rfl, rfl, rfl, rfl⟩
 
 /-- `push_row` / `push_col` are the `i = dim` instances -/
 theorem C06_push (m : Mode) (cap : Nat) (t : TD α) (it : IterScript α) (spare : List α) :
